@@ -671,6 +671,15 @@ inline std::string enc_obj(const Tracked* t) {
   auto it = S().live.find(t);
   return it == S().live.end() ? std::string("o:dead") : "o:" + std::to_string(it->second.first);
 }
+// the library may keep what it is given (a graph keeps its factors): with `return_retained` on, every
+// shared pointer received is put into the pool of its declared class (once)
+template <class U> inline void keep(const char* cls, const std::shared_ptr<U>& p) {
+  if (!S().return_retained || !p) return;
+  // one extra reference per object, whatever static type it arrives as (all classes put lib::Tracked first)
+  const void* addr = static_cast<const Tracked*>(p.get());
+  for (auto& kv : S().retained) for (auto& q : kv.second) if (q.get() == addr) return;
+  S().retained[cls].push_back(std::static_pointer_cast<void>(p));
+}
 inline void enter(Event& e, const char* entity, int overload, long self) {
   e.entity = entity; e.overload = overload; e.self = self;
   long k = ++S().calls;
@@ -778,6 +787,11 @@ def _body(f, self_expr, ret, entity_expr=None):
     s = "lib::Event e; lib::enter(e, %s, %d, %s);" % (entity_expr or "\"%s\"" % f.entity, f.overload, self_expr)
     for a in f.args:
         s += " e.args.push_back(%s);" % _enc_arg(a)
+    for a in f.args:
+        if a.ty.kind == "class" and a.ty.mode == "sptr":
+            s += " lib::keep(\"%s\", %s);" % (a.ty.name, a.name)
+        elif a.ty.kind == "this" and a.ty.mode == "sptr":
+            s += " lib::keep(cls().c_str(), %s);" % a.name
     if ret is not None:
         s += " " + _ret_expr(ret)
     s += " lib::leave(e);"
